@@ -41,6 +41,15 @@ def _gen_slice_form(value, selfname="self"):
         hi_ok = (isinstance(hi, ast.Call) and norm(hi.func) == "min" and any(norm(a).startswith(f"{selfname}.num_voxels[") for a in hi.args))
         if lo_ok and hi_ok:
             return "clipped"
+        # a re-definition that maps an existing selection element-wise (for sl in <tuple>) but whose bounds are not the element's own
+        # start / stop: the requested block is altered after it was fixed
+        gen = v.generators[0]
+        tgt = [x.id for x in ast.walk(gen.target) if isinstance(x, ast.Name)]
+        if tgt and any(isinstance(x, ast.Attribute) and x.attr in ("start", "stop") and isinstance(x.value, ast.Name) and x.value.id in tgt for x in ast.walk(e)):
+            own = [f"{t}.start" for t in tgt] + [f"{t}.stop" for t in tgt]
+            if not (norm(lo) in own and norm(hi) in own and norm(lo).endswith(".start") and norm(hi).endswith(".stop")):
+                return "altered"
+            return "identity"
     return None
 
 
@@ -107,8 +116,12 @@ def rule_ab(ctx):
                         raise AnalysisError(f"Image.subregion: definition `{text}` of the slice tuple is not a recognised form")
             else:
                 raise AnalysisError(f"Image.subregion: unexpected definition of `{sel}` at {dn!r}")
+            if form == "altered":
+                ctx.ob(Ra, f.qname, f"{label}: the selection is not reshaped after it was fixed [{' '.join(text.split())[:60]}]", False,
+                       "the bounds of the (already normalised) selection are replaced by other values: the extracted block is not the requested one", dn.stmt)
+                continue
             ctx.ob(Ra, f.qname, f"{label}: reaching definition of the slice tuple is bounded [{' '.join(text.split())[:60]}]",
-                   form in ("clipped", "indices"),
+                   form in ("clipped", "indices", "identity"),
                    f"the caller's slices reach the {label} unnormalised (form {form}): a stop beyond the extent or a negative bound gives "
                    "dimensions/origin that disagree with the extracted block", dn.stmt if dn.stmt is not None else f.node,
                    path=[f"L{x.line}: {x.text()[:80]}" for x in (g.path(dn, n) or [])][:12])
